@@ -13,9 +13,15 @@ from multiprocessing.connection import wait
 _CTX = mp.get_context("fork")
 
 
-def _worker(conn, fn, init, env):
+def _worker(conn, fn, init, env, fresh=False):
     if env:
         os.environ.update(env)
+    if fresh:   # throw-away workers are used for calls known to corrupt the heap: keep glibc's abort chatter off stderr
+        try:
+            fd = os.open(os.devnull, os.O_WRONLY)
+            os.dup2(fd, 2)
+        except OSError:
+            pass
     state = init() if init else None
     while True:
         try:
@@ -31,12 +37,15 @@ def _worker(conn, fn, init, env):
             except BaseException as e:  # noqa
                 conn.send((idx, "err", "%s: %s\n%s" % (type(e).__name__, e, traceback.format_exc()[-1500:])))
         conn.send(("batch-done", None, None))
+        if fresh:
+            os._exit(0)
 
 
 class _W:
-    def __init__(self, fn, init, env):
+    def __init__(self, fn, init, env, fresh=False):
         self.parent, child = _CTX.Pipe()
-        self.p = _CTX.Process(target=_worker, args=(child, fn, init, env), daemon=True)
+        self.p = _CTX.Process(target=_worker, args=(child, fn, init, env, fresh), daemon=True)
+        self.fresh = fresh
         self.p.start()
         child.close()
         self.pending = []   # list of (idx, task) not yet answered, in order
@@ -54,7 +63,7 @@ class _W:
             pass
 
 
-def run_tasks(fn, tasks, workers=16, timeout=60.0, batch=16, init=None, env=None, on_result=None):
+def run_tasks(fn, tasks, workers=16, timeout=60.0, batch=16, init=None, env=None, on_result=None, fresh=False):
     """Run fn(task) for every task; returns list of (status, value) aligned with tasks where
     status in {"ok","err","hang","died"}."""
     tasks = list(tasks)
@@ -79,7 +88,7 @@ def run_tasks(fn, tasks, workers=16, timeout=60.0, batch=16, init=None, env=None
         return True
 
     for _ in range(workers):
-        w = _W(fn, init, env)
+        w = _W(fn, init, env, fresh)
         ws.append(w)
         feed(w)
     retry = []   # tasks to be re-run alone after a hang/death of a batch-mate (they were never started)
@@ -111,6 +120,11 @@ def run_tasks(fn, tasks, workers=16, timeout=60.0, batch=16, init=None, env=None
                         w.t_last = now
                         if idx == "batch-done":
                             w.pending = []
+                            if fresh:
+                                w.kill()
+                                ws.remove(w)
+                                w = _W(fn, init, env, fresh)
+                                ws.append(w)
                             if retry:
                                 chunk = [retry.pop()]
                                 w.pending = list(chunk)
@@ -134,7 +148,7 @@ def run_tasks(fn, tasks, workers=16, timeout=60.0, batch=16, init=None, env=None
                         retry.extend(w.pending[1:])
                     w.kill()
                     ws.remove(w)
-                    nw = _W(fn, init, env)
+                    nw = _W(fn, init, env, fresh)
                     ws.append(nw)
                     continue
             elif w.pending and now - w.t_last > timeout:
@@ -146,8 +160,11 @@ def run_tasks(fn, tasks, workers=16, timeout=60.0, batch=16, init=None, env=None
                 retry.extend(w.pending[1:])
                 w.kill()
                 ws.remove(w)
-                nw = _W(fn, init, env)
+                nw = _W(fn, init, env, fresh)
                 ws.append(nw)
+    for i in range(n):
+        if results[i] is None:
+            results[i] = ("died", "result lost (worker died)")
     for w in ws:
         try:
             w.parent.send(None)
